@@ -7,7 +7,8 @@ use vp::*;
 fn extra_header(t: &mut Tape) -> (BString, BString, bool) {
     const NAMES: &[&str] = &["gpgsig", "mergetag", "x-a", "note", "gpgsig-sha256", "HG:extra"];
     let name = t.pick(NAMES).to_string();
-    const ALPHA: &[u8] = b"ab -=:\t\x01\xff<>.";
+    // includes CR: lines ending in CRLF are legal inside multi-line values (e.g. signatures made on Windows)
+    const ALPHA: &[u8] = b"ab -=:\t\x01\xff<>.\r\r";
     let lines = t.range(1, 4);
     let mut v: Vec<u8> = Vec::new();
     // first line must be non-empty (the format cannot express an empty first line)
